@@ -47,6 +47,13 @@ Proof.
 Qed.
 Print Assumptions non200_code_from_status.
 
+(* a 101 response (its body is the connection itself, which the client closes instead of
+   reading): the code is the one derived from the status, whatever the peer wrote after it *)
+Theorem switching_protocols_code_from_status : forall enc j,
+  connect_unary_validate 101 enc (body_as_published 101 j) = Some (connect_http_to_code 101).
+Proof. exact switching_protocols_code_from_status_lemma. Qed.
+Print Assumptions switching_protocols_code_from_status.
+
 (* status trailers / end-of-stream messages never yield an error with code 0,
    whatever text they carry *)
 Theorem terminator_verdicts_nonzero :
